@@ -348,7 +348,9 @@ class SchemaBuilder(
         )
         if flattened_schemas:
             return json_schema(
-                allOf=result + flattened_schemas, unevaluatedProperties=False
+                allOf=result + flattened_schemas,
+                # additional properties, when allowed, are allowed in the whole object
+                unevaluatedProperties=additional_properties is not False,
             )
         elif len(result) == 1:
             return result[0]
